@@ -600,6 +600,20 @@ def resolve_strategy_inline_recurse(path, base, decisions):
                 # TODO: Do inline merge
                 pass
 
+            elif k == 'attachments':
+                # Keep differing attachments from both sides under new names
+                lattachments = lcell.get(k, {})
+                rattachments = rcell.get(k, {})
+                cell[k] = {}
+                for name in sorted(set(lattachments) | set(rattachments)):
+                    if lattachments.get(name) == rattachments.get(name):
+                        cell[k][name] = lattachments[name]
+                        continue
+                    if name in lattachments:
+                        cell[k]["LOCAL_" + name] = lattachments[name]
+                    if name in rattachments:
+                        cell[k]["REMOTE_" + name] = rattachments[name]
+
             else:
                 raise ValueError('Conflict on unrecognized key: %r' % (k,))
 
